@@ -1,11 +1,11 @@
 ------------------------------ MODULE MC_Serve ------------------------------
 (* packet / configuration families for the exhaustive configs (one cfg per family) *)
-EXTENDS Serve
+EXTENDS Serve, Json
 
 Base == [qr |-> FALSE, opcode |-> 0, qd |-> 1, an |-> 0, rd |-> TRUE, ad |-> FALSE, cd |-> FALSE,
          qtype |-> "A", qclass |-> "IN", opt |-> "ok", do |-> FALSE, size |-> 1232,
          cookie |-> "none", nsid |-> FALSE, keepalive |-> FALSE, ecs |-> "none",
-         pad |-> FALSE, unk |-> FALSE, proto |-> "udp"]
+         pad |-> FALSE, unk |-> FALSE, proto |-> "udp", name |-> "own"]
 
 With(r, f, v) == [r EXCEPT ![f] = v]
 
@@ -43,6 +43,29 @@ PktRelay ==
 ContentsRelay == {"pos", "nx", "ede", "upecs", "upcookie", "up2optF", "up2optL", "up2optB"}
 CfgSetRelay == {[nsid |-> FALSE, ratelimit |-> FALSE, ecs |-> e] : e \in {"off", "on"}}
 AsBuilt == FALSE
+
+(* the cache ladder: two names below one parent, buffer classes around the "mid" body, both transports, both CD
+   partitions, DO on and off *)
+PktLadder ==
+  { [Base EXCEPT !.name = a, !.opt = b, !.proto = c, !.cd = d, !.do = e] :
+      a \in {"own", "sib"}, b \in {"none", "ok"}, c \in {"udp", "tcp"}, d \in BOOLEAN, e \in BOOLEAN }
+ContentsLadder == {"pos", "mid", "big", "servfail", "nx", "signed"}
+LadderEnv == 2
+MutNoBackoff   == "nobackoff"
+MutFallthrough == "fallthrough"
+MutFailFirst   == "failfirst"
+
+(* every transition of the ladder family, printed for the replay (cfg: ACTION_CONSTRAINT EmitLadderEdge; always TRUE).
+   With VIEW View each distinct state is expanded once, so each edge of the state graph is printed once. *)
+PN == <<"A", "nocd">>
+PC == <<"A", "cd">>
+LadderKey == [content |-> content, ca |-> cached[PN], cc |-> cached[PC], sa |-> sibc[PN], sc |-> sibc[PC], cut |-> cut,
+              fa |-> failst[PN], fc |-> failst[PC], n |-> n, nenv |-> nenv]
+EmitLadderEdge ==
+  PrintT(ToJson([edge |-> "ladder", pre |-> LadderKey, post |-> LadderKey',
+                 step |-> IF out'.valid
+                            THEN [pkt |-> out'.pkt, content |-> out'.content, o |-> out'.wire.o, tail |-> out'.wire.tail]
+                            ELSE [env |-> out'.env]]))
 
 CfgSetPlain == {CfgPlain}
 CfgSetRL == {[nsid |-> FALSE, ratelimit |-> TRUE, ecs |-> "off"], [nsid |-> TRUE, ratelimit |-> TRUE, ecs |-> "on"]}
